@@ -628,10 +628,17 @@ func evalCases(ctx *Ctx, res *Result, drv *Nadrv, cases []CaseIn, nw int, verbos
 		}
 	}
 	po2 := runAll(pc2, nw)
-	for attempt := 0; attempt < 3; attempt++ {
+	hung2 := map[int]int{}
+	for attempt := 0; attempt < 2; attempt++ {
 		var again []int
 		for i, o := range po2 {
 			if o.Exit != 0 {
+				if strings.HasPrefix(o.Panic, "worker hung") {
+					hung2[i]++
+				}
+				if hung2[i] >= 2 || (o.Hash0 != "" && o.Hash1 != "" && o.Hash0 != o.Hash1) {
+					continue // not the environment's doing
+				}
 				again = append(again, i)
 			}
 		}
@@ -639,10 +646,15 @@ func evalCases(ctx *Ctx, res *Result, drv *Nadrv, cases []CaseIn, nw int, verbos
 			break
 		}
 		res.CountN("baseline_rerun", len(again))
+		var cs []CaseIn
 		for _, i := range again {
 			c := pc2[i]
 			c.TScale = rerunScale
-			po2[i] = runAll([]CaseIn{c}, 1)[0]
+			cs = append(cs, c)
+		}
+		os2 := runAll(cs, 2)
+		for k, i := range again {
+			po2[i] = os2[k]
 		}
 	}
 	for i, id := range pk2 {
